@@ -177,7 +177,7 @@ def sig_contract(who, tls13):
 
 def build(ctx):
     C = ctx
-    C.helper_rewrites = [dict(rule='X5', pattern=r"\bCertificateDer<'\w+>", repl='CertificateDer', regex=True)]
+    C.helper_rewrites = [dict(rule='X5', pattern=r"\bCertificateDer<'\w+>", repl='CertificateDer', regex=True), dict(rule='X5', pattern='anyhow::Error', repl='Error')]
     t = P.HEADER.replace('use std::collections::HashMap;', 'use std::collections::HashMap;\nuse std::sync::Arc;') + P.STD_SPECS
     t += P.peer_types(C) + P.PEER_ID_AXIOMS
     t += C.item(CRYPTO, 'struct CertVerifier')
